@@ -109,10 +109,8 @@ class StorageInterface(ABC):
                 extension.)
             **kwargs: Additional keyword arguments.
         """
-        filename = self._parse_filename(
-            node=node if filename is None else None,
-            filename=filename,
-        )
+        lexical_owner = node if filename is None else None
+        filename = self._parse_filename(node=lexical_owner, filename=filename)
         filename.parent.mkdir(parents=True, exist_ok=True)
 
         try:
@@ -122,8 +120,7 @@ class StorageInterface(ABC):
         finally:
             # If nothing got written due to the exception, clean up the directory
             # (as long as there's nothing else in it)
-            if not any(filename.parent.iterdir()):
-                filename.parent.rmdir()
+            self._remove_emptied_directories(filename, lexical_owner)
 
     def load(
         self, node: Node | None = None, filename: str | Path | None = None, **kwargs
@@ -183,8 +180,29 @@ class StorageInterface(ABC):
             filename, **kwargs
         ):
             self._delete(filename, **kwargs)
-        if filename.parent.exists() and not any(filename.parent.iterdir()):
-            filename.parent.rmdir()
+        self._remove_emptied_directories(filename, node)
+
+    @staticmethod
+    def _remove_emptied_directories(filename: Path, node: Node | None) -> None:
+        """
+        Remove the directory of the file if nothing is (left) in it. When the location
+        was derived from a node, its lexical ancestors got their directories made along
+        with it, so go on upwards through those that are left empty, too -- up to and
+        including the directory of the lexical root.
+        """
+        stop = (
+            filename.parent.parent
+            if node is None
+            else node.lexical_root.as_path().parent
+        )
+        directory = filename.parent
+        while (
+            directory != stop
+            and directory.exists()
+            and not any(directory.iterdir())
+        ):
+            directory.rmdir()
+            directory = directory.parent
 
     def _parse_filename(
         self, node: Node | None, filename: str | Path | None = None
